@@ -85,9 +85,23 @@ def rng():
 
 def run_check(main):
     """uniform exit-code protocol: 0 held / 1 violation / 2 inconclusive"""
-    try:
-        rc = main()
-    except Unsupported as e:
-        print('INCONCLUSIVE reason=%s' % (str(e)[:400],))
-        rc = 2
-    sys.exit(rc)
+    import threading
+    box = {}
+
+    def body():
+        try:
+            box['rc'] = main()
+        except Unsupported as e:
+            print('INCONCLUSIVE reason=%s' % (str(e)[:600],))
+            box['rc'] = 2
+        except BaseException:
+            import traceback
+            traceback.print_exc()
+            box['rc'] = 3
+    sys.setrecursionlimit(400000)
+    threading.stack_size(1 << 30)
+    t = threading.Thread(target=body)
+    t.start()
+    t.join()
+    sys.stdout.flush()
+    os._exit(box.get('rc', 3))
